@@ -314,6 +314,15 @@ class Translator:
             if isinstance(v0, sp.Tuple) and len(v0) > 0:
                 parts = [as_bool(x) for x in v0]
                 return sp.And(*parts) if fn == "all" else sp.Or(*parts)
+        if fn in ("sqrt", "abs", "absolute", "fabs", "exp", "log", "square") and len(args) >= 1:
+            v0 = A(0)
+            if isinstance(v0, sp.Tuple):
+                # an elementwise function of a display (np.sqrt(np.array([a, b]))): the display of the function values
+                f1 = {"sqrt": sp.sqrt, "abs": sp.Abs, "absolute": sp.Abs, "fabs": sp.Abs, "exp": sp.exp, "log": sp.log, "square": (lambda x: x ** 2)}[fn]
+
+                def each(t):
+                    return sp.Tuple(*[each(x) for x in t]) if isinstance(t, sp.Tuple) else f1(t)
+                return each(v0)
         if fn in ("sqrt",):
             return sp.sqrt(A(0))
         if fn in ("abs", "absolute", "fabs"):
